@@ -1,1 +1,244 @@
-import OratioModel
+/-
+Lemmas for property C14, part 1: vocabulary (copies of the definitions of
+`OratioProofs/Properties/C14.lean`, which imports this file – the copies are definitionally
+equal to the originals, stated over the `EncL` vocabulary of the C13 lemma library),
+association lists (`lookupVal`, `emplace`), `mkGuards`, preservation of the invariant.
+Core Lean only.
+-/
+import OratioModel.Sat.Ov
+import OratioProofs.Lemmas.EncOps
+import OratioProofs.Lemmas.EncTop
+
+namespace Oratio
+namespace OvL
+open Enc EncL
+
+/-! ## vocabulary (same text as in Properties/C14.lean) -/
+
+def Takes (α : Asg) (s : Ov) (v k : Nat) : Prop :=
+  (∃ l, Ov.lookupVal (s.dom v) k = some l ∧ α.lit l = true) ∧
+  ∀ e ∈ s.dom v, e.1 ≠ k → α.lit e.2 = false
+
+def OneValue (α : Asg) (s : Ov) (v : Nat) : Prop := ∃ k, Takes α s v k
+
+def WF (s : Ov) : Prop :=
+  EncL.Inv s.enc ∧
+  (∀ d ∈ s.doms, (d.map (·.1)).Nodup ∧ d ≠ [] ∧ ∀ e ∈ d, e.2.var < s.enc.nvars) ∧
+  (∀ e ∈ s.eqs, e.1.1 < e.1.2 ∧ e.1.2 < s.doms.length ∧ e.2.var < s.enc.nvars ∧
+     ∃ k, (Ov.lookupVal (s.dom e.1.1) k).isSome ∧ (Ov.lookupVal (s.dom e.1.2) k).isSome)
+
+def EqMeans (s : Ov) (a b : Nat) (l : Lit) : Prop :=
+  ∀ α, EncL.Sat α s.enc → ∀ ka kb, Takes α s a ka → Takes α s b kb → (α.lit l = true ↔ ka = kb)
+
+def Inv (s : Ov) : Prop := WF s ∧ ∀ e ∈ s.eqs, EqMeans s e.1.1 e.1.2 e.2
+
+/-! ## association lists -/
+
+theorem lookupVal_some_mem {d : List (Nat × Lit)} {k : Nat} {l : Lit}
+    (h : Ov.lookupVal d k = some l) : (k, l) ∈ d := by
+  unfold Ov.lookupVal at h
+  cases hf : d.find? (fun e => e.1 == k) with
+  | none => rw [hf] at h; cases h
+  | some e =>
+    rw [hf] at h
+    simp only [Option.map_some, Option.some.injEq] at h
+    have h1 := List.find?_some hf
+    have h2 := List.mem_of_find?_eq_some hf
+    have h3 : e.1 = k := by simpa using h1
+    rw [← h3, ← h]; exact h2
+
+theorem lookupVal_none {d : List (Nat × Lit)} {k : Nat}
+    (h : Ov.lookupVal d k = none) : ∀ e ∈ d, e.1 ≠ k := by
+  unfold Ov.lookupVal at h
+  simp only [Option.map_eq_none_iff, List.find?_eq_none] at h
+  intro e he hk
+  exact h e he (by simp [hk])
+
+theorem lookupVal_of_mem {d : List (Nat × Lit)} (hnd : (d.map (·.1)).Nodup) {k : Nat} {l : Lit}
+    (h : (k, l) ∈ d) : Ov.lookupVal d k = some l := by
+  induction d with
+  | nil => cases h
+  | cons e t ih =>
+    simp only [List.map_cons, List.nodup_cons] at hnd
+    rcases List.mem_cons.1 h with h | h
+    · subst h; simp [Ov.lookupVal]
+    · have hne : e.1 ≠ k := by
+        intro he
+        apply hnd.1
+        rw [he]
+        exact List.mem_map.2 ⟨(k, l), h, rfl⟩
+      have := ih hnd.2 h
+      unfold Ov.lookupVal at this ⊢
+      rw [List.find?_cons_of_neg (by simpa using hne)]
+      exact this
+
+/-- a key that occurs has an entry -/
+theorem lookupVal_isSome_of_mem {d : List (Nat × Lit)} {e : Nat × Lit} (h : e ∈ d) :
+    ∃ l, Ov.lookupVal d e.1 = some l := by
+  cases hl : Ov.lookupVal d e.1 with
+  | none => exact absurd rfl (lookupVal_none hl e h)
+  | some l => exact ⟨l, rfl⟩
+
+theorem eq_of_nodup_map {α β : Type} {f : α → β} : ∀ {l : List α}, (l.map f).Nodup →
+    ∀ {a b : α}, a ∈ l → b ∈ l → f a = f b → a = b := by
+  intro l
+  induction l with
+  | nil => intro _ a b ha; cases ha
+  | cons x t ih =>
+    intro hnd a b ha hb hab
+    simp only [List.map_cons, List.nodup_cons, List.mem_map, not_exists, not_and] at hnd
+    rcases List.mem_cons.1 ha with ha' | ha' <;> rcases List.mem_cons.1 hb with hb' | hb'
+    · rw [ha', hb']
+    · rw [ha'] at hab; exact absurd hab.symm (hnd.1 b hb')
+    · rw [hb'] at hab; exact absurd hab (hnd.1 a ha')
+    · exact ih hnd.2 ha' hb' hab
+
+/-! ## `Takes` -/
+
+theorem dom_push_lt (doms : List (List (Nat × Lit))) (ds : List (List (Nat × Lit))) {v : Nat}
+    (hv : v < doms.length) : (doms ++ ds).getD v [] = doms.getD v [] := by
+  simp only [List.getD_eq_getElem?_getD]
+  rw [List.getElem?_append_left hv]
+
+theorem dom_push_new (doms : List (List (Nat × Lit))) (d : List (Nat × Lit)) :
+    (doms ++ [d]).getD doms.length [] = d := by
+  simp [List.getD_eq_getElem?_getD]
+
+theorem takes_congr {α : Asg} {s s' : Ov} {v k : Nat} (h : s'.dom v = s.dom v) :
+    Takes α s' v k ↔ Takes α s v k := by
+  unfold Takes; rw [h]
+
+/-- a variable takes at most one value -/
+theorem takes_unique {α : Asg} {s : Ov} {v ka kb : Nat} (ha : Takes α s v ka) (hb : Takes α s v kb) :
+    ka = kb := by
+  refine Classical.byContradiction fun hne => ?_
+  obtain ⟨⟨l, hl, hlt⟩, _⟩ := hb
+  have := ha.2 (kb, l) (lookupVal_some_mem hl) (fun h => hne h.symm)
+  rw [hlt] at this; cases this
+
+theorem takes_mem {α : Asg} {s : Ov} {v k : Nat} (h : Takes α s v k) :
+    ∃ l, (k, l) ∈ s.dom v ∧ α.lit l = true := by
+  obtain ⟨⟨l, hl, hlt⟩, _⟩ := h
+  exact ⟨l, lookupVal_some_mem hl, hlt⟩
+
+/-! ## posting clauses -/
+
+theorem newClause_full {s : Enc} {c : List Lit} (h : EncL.Inv s) (hc : InRange s c) :
+    EncL.Inv (s.newClause c).2 ∧ (s.newClause c).2.nvars = s.nvars ∧
+    (∀ α, Sat α (s.newClause c).2 → Sat α s) ∧
+    (∀ α, Sat α s → α.clause c = true → Sat α (s.newClause c).2 ∧ (s.newClause c).1 = true) ∧
+    ((s.newClause c).1 = true → ∀ α, Sat α (s.newClause c).2 → α.clause c = true) := by
+  obtain ⟨_, _, k3, _, k5⟩ := newClause_spec h.1 hc
+  obtain ⟨n1, n2, n3⟩ := new_clause_sem h hc
+  refine ⟨n1, k3, fun α hα => ?_, fun α hα hcl => ?_, fun ht α hα => ((n2 ht α).1 hα).2⟩
+  · cases hb : (s.newClause c).1 with
+    | true => exact ((n2 hb α).1 hα).1
+    | false => rw [(k5 hb).1] at hα; exact hα
+  · cases hb : (s.newClause c).1 with
+    | true => exact ⟨(n2 hb α).2 ⟨hα, hcl⟩, rfl⟩
+    | false => have := n3 hb α hα; rw [hcl] at this; cases this
+
+/-- post all the clauses of a list, ignoring the results (the loop of `ov_theory::new_eq`) -/
+theorem postAll_spec : ∀ (cs : List (List Lit)) {s : Enc}, EncL.Inv s → (∀ c ∈ cs, InRange s c) →
+    EncL.Inv (cs.foldl (fun e c => (e.newClause c).2) s) ∧
+    (cs.foldl (fun e c => (e.newClause c).2) s).nvars = s.nvars ∧
+    (∀ α, Sat α (cs.foldl (fun e c => (e.newClause c).2) s) → Sat α s) ∧
+    (∀ α, Sat α s → α.cnf cs = true → Sat α (cs.foldl (fun e c => (e.newClause c).2) s)) ∧
+    ((∃ β, Sat β s ∧ β.cnf cs = true) →
+      ∀ α, Sat α (cs.foldl (fun e c => (e.newClause c).2) s) → α.cnf cs = true)
+  | [], s, h, _ => ⟨h, rfl, fun _ hα => hα, fun _ hα _ => hα, fun _ _ _ => rfl⟩
+  | c :: cs, s, h, hc => by
+    obtain ⟨k1, k2, k3, k4, k5⟩ := newClause_full h (hc c (by simp))
+    have hc' : ∀ c' ∈ cs, InRange (s.newClause c).2 c' := fun c' hc' l hl => by
+      rw [k2]; exact hc c' (by simp [hc']) l hl
+    obtain ⟨i1, i2, i3, i4, i5⟩ := postAll_spec cs k1 hc'
+    simp only [List.foldl_cons]
+    refine ⟨i1, i2.trans k2, fun α hα => k3 α (i3 α hα), fun α hα hcs => ?_, fun hβ α hα => ?_⟩
+    · simp only [Asg.cnf, List.all_cons, Bool.and_eq_true] at hcs
+      exact i4 α (k4 α hα hcs.1).1 hcs.2
+    · obtain ⟨β, hβ, hβc⟩ := hβ
+      simp only [Asg.cnf, List.all_cons, Bool.and_eq_true] at hβc ⊢
+      obtain ⟨b1, b2⟩ := k4 β hβ hβc.1
+      exact ⟨k5 b2 α (i3 α hα), i5 ⟨β, b1, hβc.2⟩ α hα⟩
+
+/-! ## fresh literals -/
+
+theorem value_none_of_ge {s : Enc} {l : Lit} (h : s.nvars ≤ l.var) : s.value l = none := by
+  rw [value_none_iff]
+  simp only [List.getD_eq_getElem?_getD]
+  rw [List.getElem?_eq_none h]
+  rfl
+
+theorem lookup_none_of {s : Enc} {k : Key} (h : ∀ x ∈ s.exprs, x.1 ≠ k) : s.lookup k = none := by
+  unfold Enc.lookup
+  simp only [Option.map_eq_none_iff, List.find?_eq_none]
+  intro x hx
+  simpa using h x hx
+
+theorem lit_ext_pos {a b : Lit} (ha : a.sign = true) (hb : b.sign = true) (h : a.var = b.var) : a = b := by
+  cases a; cases b; simp_all
+
+/-- an exactly-one over a list containing an undecided literal newer than the cache is fresh -/
+theorem exoFresh_of_fresh {e : Enc} {n : Nat} (hex : ∀ x ∈ e.exprs, ∀ l ∈ keyLits x.1, l.var < n)
+    {ls : List Lit} {g : Lit} (hg : g ∈ ls) (hgv : e.value g = none) (hgn : n ≤ g.var) :
+    exoFresh e ls = true := by
+  unfold exoFresh
+  cases hsc : scanCard e (sortDedup ls) none [] with
+  | twoTrue => rfl
+  | oneTrue _ => rfl
+  | «open» ls' =>
+    obtain ⟨_, _, _, o4, _⟩ := scanCard_open (sortDedup ls) none [] (by simp) ls' hsc
+    have hg' : g ∈ ls' := by
+      rcases o4 g (mem_sortDedup.2 hg) with h | h
+      · exact h
+      · rw [hgv] at h; cases h
+    simp only [Bool.and_eq_true, Option.isNone_iff_eq_none]
+    constructor
+    · refine lookup_none_of fun x hx hk => ?_
+      have := hex x hx g (by rw [hk]; exact hg')
+      omega
+    · refine lookup_none_of fun x hx hk => ?_
+      have := hex x hx g (by rw [hk]; exact hg')
+      omega
+
+/-! ## the invariant under growth of the network -/
+
+/-- refine the network and append new domains -/
+theorem inv_update {s : Ov} (h : Inv s) {e' : Enc} (hi : EncL.Inv e') (hr : Refines s.enc e')
+    (ds : List (List (Nat × Lit)))
+    (hds : ∀ d ∈ ds, (d.map (·.1)).Nodup ∧ d ≠ [] ∧ ∀ e ∈ d, e.2.var < e'.nvars) :
+    Inv ⟨e', s.doms ++ ds, s.eqs⟩ := by
+  obtain ⟨⟨_, w2, w3⟩, h2⟩ := h
+  refine ⟨⟨hi, fun d hd => ?_, fun e he => ?_⟩, fun e he α hα ka kb hka hkb => ?_⟩
+  · rcases List.mem_append.1 hd with hd | hd
+    · obtain ⟨d1, d2, d3⟩ := w2 d hd
+      exact ⟨d1, d2, fun e he => Nat.lt_of_lt_of_le (d3 e he) hr.1⟩
+    · exact hds d hd
+  · obtain ⟨e1, e2, e3, e4⟩ := w3 e he
+    have hd1 : (Ov.mk e' (s.doms ++ ds) s.eqs).dom e.1.1 = s.dom e.1.1 :=
+      dom_push_lt s.doms ds (Nat.lt_trans e1 e2)
+    have hd2 : (Ov.mk e' (s.doms ++ ds) s.eqs).dom e.1.2 = s.dom e.1.2 :=
+      dom_push_lt s.doms ds e2
+    refine ⟨e1, ?_, Nat.lt_of_lt_of_le e3 hr.1, ?_⟩
+    · simp only [List.length_append]; omega
+    · rw [hd1, hd2]; exact e4
+  · obtain ⟨e1, e2, _⟩ := w3 e he
+    have hd1 : (Ov.mk e' (s.doms ++ ds) s.eqs).dom e.1.1 = s.dom e.1.1 :=
+      dom_push_lt s.doms ds (Nat.lt_trans e1 e2)
+    have hd2 : (Ov.mk e' (s.doms ++ ds) s.eqs).dom e.1.2 = s.dom e.1.2 :=
+      dom_push_lt s.doms ds e2
+    exact h2 e he α (hr.2 α hα) ka kb ((takes_congr hd1).1 hka) ((takes_congr hd2).1 hkb)
+
+theorem inv_update_nil {s : Ov} (h : Inv s) {e' : Enc} (hi : EncL.Inv e') (hr : Refines s.enc e') :
+    Inv ⟨e', s.doms, s.eqs⟩ := by
+  have := inv_update h hi hr [] (fun d hd => by cases hd)
+  simpa using this
+
+theorem init_inv : Inv Ov.init := by
+  refine ⟨⟨EncL.init_inv, ?_, ?_⟩, ?_⟩
+  · intro d hd; cases hd
+  · intro e he; cases he
+  · intro e he; cases he
+
+end OvL
+end Oratio
